@@ -34,6 +34,7 @@
 #include <cerrno>
 #include <charconv>
 #include <cmath>
+#include <cstdio>
 #include <cstdint>
 #include <cstdlib>
 #include <cstring>
@@ -855,7 +856,7 @@ private:
     case JsonType::Int:
       return std::to_string(getInt());
     case JsonType::Double:
-      return std::to_string(getDouble());
+      return _serializeDouble(getDouble());
     case JsonType::String:
       return _escapeString(getString());
     case JsonType::Array:
@@ -865,6 +866,26 @@ private:
     default:
       return "null";
     }
+  }
+
+  /// Shortest-safe decimal form that parses back to the same double (17 significant
+  /// digits). std::to_string uses "%f", which prints 1e-7 as "0.000000" and loses
+  /// every value below 1e-6. A ".0" keeps integral values typed as doubles on re-parse;
+  /// JSON has no NaN/Infinity, those serialize as null.
+  static std::string _serializeDouble(double d)
+  {
+    if (!std::isfinite(d))
+    {
+      return "null";
+    }
+    char buf[40];
+    std::snprintf(buf, sizeof(buf), "%.17g", d);
+    std::string out(buf);
+    if (out.find_first_of(".eE") == std::string::npos)
+    {
+      out += ".0";
+    }
+    return out;
   }
 
   std::string _serializeArray(const SerializeOptions &options, int depth) const
